@@ -8,11 +8,11 @@ VARIABLES l, st
 vars == <<l, st>>
 
 \* state from the observation; ghosts (paid set, rolled flags) are carried by the specification
-StOf(o, paid, rolled, bondT) ==
+StOf(o, paid, rolled, bondT, bondN) ==
   [ eps |-> [i \in 1 .. Len(o.eps) |->
                [id |-> o.eps[i].id, total |-> o.eps[i].total, available |-> o.eps[i].available,
                 claimed |-> o.eps[i].claimed, rolled |-> i \in rolled, start |-> o.eps[i].start]],
-    dbal |-> o.dbal, w |-> o.w, grace |-> o.grace, paid |-> paid, first |-> o.first, bonded |-> o.bonded, bondT |-> bondT ]
+    dbal |-> o.dbal, w |-> o.w, grace |-> o.grace, paid |-> paid, first |-> o.first, bonded |-> o.bonded, bondT |-> bondT, bondN |-> bondN ]
 RolledOf(s) == { i \in 1 .. NEp(s) : s.eps[i].rolled }
 
 Common(ev, t) ==
@@ -46,8 +46,13 @@ EvChecks(ev, t) ==
           ELSE Untouched(t)
      [] ev.ev = "claim" ->
           IF ev.res = "ok" THEN ClaimChecks(st, ev.actor, t, ev.out.paid,
-                                            \* epochs that started after the claimer (first) bonded
-                                            { i \in 1 .. NEp(st) : st.bondT[ev.actor] # "none" /\ st.bondT[ev.actor] \prec st.eps[i].start })
+                                            \* "an epoch that started before it bonded": an epoch that existed when the
+                                            \* claimer bonded and whose start time lies before the bonding time.  An epoch
+                                            \* created after the bonding is not one, even when it is created late and its
+                                            \* nominal start (previous start + duration) lies before the bonding time; nor is
+                                            \* an epoch created in the very block of the bonding, which starts AT that time.
+                                            { i \in 1 .. NEp(st) : st.bondT[ev.actor] # "none"
+                                                                   /\ (st.bondT[ev.actor] \preceq st.eps[i].start \/ i > st.bondN[ev.actor]) })
                                 \o << <<"drift.claim.reward=floor(total*share)", ImplRewards(ev, t)>> >>
           ELSE Untouched(t)
      \* setasset: the owner switches the distribution asset; the ledgers of every asset stay as they are
@@ -64,7 +69,7 @@ Init == l = 1 /\ st = [eps |-> <<>>]
 Next ==
   /\ l <= Len(Rec)
   /\ LET ev == Rec[l] IN
-       IF ev.ev = "reset" THEN st' = StOf(ev.obs, {}, {}, [u \in Users |-> "none"])
+       IF ev.ev = "reset" THEN st' = StOf(ev.obs, {}, {}, [u \in Users |-> "none"], [u \in Users |-> 0])
        ELSE LET newPaid == IF ev.ev = "claim" /\ ev.res = "ok" /\ Len(ev.obs.eps) = NEp(st)
                            THEN st.paid \cup { <<ev.actor, i>> : i \in { j \in 1 .. NEp(st) : ev.obs.eps[j].available # st.eps[j].available } }
                            ELSE st.paid
@@ -74,7 +79,11 @@ Next ==
                 newBondT == [u \in Users |->
                                IF ~ev.obs.bonded[u] THEN "none"
                                ELSE IF st.bondT[u] = "none" THEN ev.obs.now ELSE st.bondT[u]]
-                t == StOf(ev.obs, newPaid, newRolled, newBondT)
+                \* ... and how many epochs existed at that moment
+                newBondN == [u \in Users |->
+                               IF ~ev.obs.bonded[u] THEN 0
+                               ELSE IF st.bondT[u] = "none" THEN NEp(st) ELSE st.bondN[u]]
+                t == StOf(ev.obs, newPaid, newRolled, newBondT, newBondN)
             IN Report(ev, Failed(EvChecks(ev, t))) /\ st' = t
   /\ l' = l + 1
 Spec == Init /\ [][Next]_vars
